@@ -158,6 +158,9 @@ func (c *c01) checkMsg(m *wire.Msg, dotu bool, exp []byte, src string) {
 	default:
 		if d := msgDiff(fromFcall(r.fc), m, dotu); d != "" {
 			c.rep.violation(grp("unpack-field"), "field="+d, fmt.Sprintf("Unpack of a well-formed %s returned a different value for %s", name, d), rp)
+		} else if int(r.fc.Size) != len(exp) || firstDiff(r.fc.Pkt, exp) >= 0 {
+			// the raw packet of the decoded message is the message, not what follows it in the buffer
+			c.rep.violation(grp("unpack-pkt"), "", fmt.Sprintf("Unpack of a well-formed %d-byte %s followed by %d bytes: Size=%d, len(Pkt)=%d", len(exp), name, tail, r.fc.Size, len(r.fc.Pkt)), rp)
 		}
 	}
 	h := maphash.Bytes(c.seed, exp)
